@@ -26,7 +26,8 @@ CONSTANTS MAXN,      \* trees with 1..MAXN nodes
           MAXNC,     \* at most this many non-Continue decisions per case
           SAMPLE     \* 0: every decision/change vector; k > 0: k random vectors per (tree, method)
 
-VARIABLE c
+VARIABLES c,   \* the case
+          ev   \* its evaluation (computed once in Init): [res, kids, logpn]
 Methods == {"apply", "visit", "transform_down", "transform_up", "transform_down_up", "rewrite", "map_children", "exists"}
 
 (*************************** all ordered trees *****************************)
@@ -110,19 +111,35 @@ Run(m, cs) ==
 
 (****************************** cases **************************************)
 Ph == {"d", "u"}
-Decs(n) == {d \in [1..n -> [Ph -> {"C", "J", "S"}]] :
-              Cardinality({x \in (1..n) \X Ph : d[x[1]][x[2]] # "C"}) <= MAXNC}
-Chgs(n) == [1..n -> [Ph -> BOOLEAN]]
-AllTrees == UNION {Trees(m) : m \in 1..MAXN}
-Vectors(n) == IF SAMPLE = 0 THEN Decs(n) \X Chgs(n) ELSE RandomSubset(SAMPLE, Decs(n) \X Chgs(n))
+\* only the callbacks a method has, and only the answers it looks at, vary
+UsesPh(m) == IF m \in {"apply", "transform_down", "map_children", "exists"} THEN {"d"}
+             ELSE IF m = "transform_up" THEN {"u"} ELSE {"d", "u"}
+UsesChg(m) == m \notin {"apply", "visit"}
+UsesDec(m) == m # "exists"
+DecsOf(n, m) == {d \in [1..n -> [Ph -> {"C", "J", "S"}]] :
+                  /\ Cardinality({x \in (1..n) \X Ph : d[x[1]][x[2]] # "C"}) <= MAXNC
+                  /\ \A i \in 1..n : \A ph \in Ph : (ph \notin UsesPh(m) \/ ~UsesDec(m)) => d[i][ph] = "C"}
+ChgsOf(n, m) == {g \in [1..n -> [Ph -> BOOLEAN]] :
+                  \A i \in 1..n : \A ph \in Ph : (ph \notin UsesPh(m) \/ ~UsesChg(m)) => g[i][ph] = FALSE}
+AllTrees == UNION {Trees(k) : k \in 1..MAXN}
+\* constant-level tables: evaluated once by TLC
+DecsTab == [n \in 1..MAXN |-> [m \in Methods |-> DecsOf(n, m)]]
+ChgsTab == [n \in 1..MAXN |-> [m \in Methods |-> ChgsOf(n, m)]]
+Vectors(n, m) ==
+  IF SAMPLE = 0 THEN DecsTab[n][m] \X ChgsTab[n][m]
+  ELSE {<<d, RandomElement(ChgsTab[n][m])>> : d \in RandomSubset(SAMPLE, DecsTab[n][m])}
 
-Init == \E t \in AllTrees : \E m \in Methods : \E v \in Vectors(Len(t)) :
-          c = [size |-> t, method |-> m, dec |-> v[1], chg |-> v[2]]
-Next == UNCHANGED c
-Spec == Init /\ [][Next]_c
+Init == \E t \in AllTrees : \E m \in Methods : \E v \in Vectors(Len(t), m) :
+          /\ c = [size |-> t, method |-> m, dec |-> v[1], chg |-> v[2]]
+          /\ LET cs  == [kids |-> Kids(t), dec |-> v[1], chg |-> v[2]]
+                 res == Run(m, cs) IN
+             ev = [res |-> res, kids |-> cs.kids,
+                  logpn |-> [i \in 1..Len(res.s.log) |-> <<res.s.log[i][1], res.s.log[i][2]>>]]
+Next == UNCHANGED <<c, ev>>
+Spec == Init /\ [][Next]_<<c, ev>>
 
-CS == [kids |-> Kids(c.size), dec |-> c.dec, chg |-> c.chg]
-R == Run(c.method, CS)
+CS == [kids |-> ev.kids, dec |-> c.dec, chg |-> c.chg]
+R == ev.res
 N == Len(c.size)
 
 (**************************** the contract *********************************)
@@ -139,7 +156,7 @@ RECURSIVE PrePostKids(_, _)
 PrePost(kids, n) == << <<"d", n>> >> \o PrePostKids(kids, kids[n]) \o << <<"u", n>> >>
 PrePostKids(kids, ks) == IF ks = <<>> THEN <<>> ELSE PrePost(kids, Head(ks)) \o PrePostKids(kids, Tail(ks))
 
-LogPN == [i \in 1..Len(R.s.log) |-> <<R.s.log[i][1], R.s.log[i][2]>>]
+LogPN == ev.logpn
 AllC == \A n \in 1..N : \A ph \in Ph : c.dec[n][ph] = "C"
 Logged(ph, n) == \E i \in 1..Len(LogPN) : LogPN[i] = <<ph, n>>
 Walks == c.method \in {"apply", "visit", "transform_down", "transform_up", "transform_down_up", "rewrite"}
@@ -154,12 +171,17 @@ OrderOK ==
           /\ c.method = "map_children" => LogPN = [i \in 1..Len(CS.kids[1]) |-> <<"d", CS.kids[1][i]>>]
           /\ Walks => R.tnr = "C"
 OnceOK == \A i, j \in 1..Len(LogPN) : i # j => LogPN[i] # LogPN[j]
-\* a logged top-down Jump prunes exactly that subtree (and the node's own f_up); nothing else is pruned by it
+\* a logged top-down Jump prunes exactly that node's subtree (in combined walks the walk "jumps" to the node's own
+\* f_up); a logged bottom-up Jump on a last child bypasses the parent's f_up
 JumpOK ==
-  (Walks /\ HasDown /\ c.method # "exists") =>
+  (Walks /\ HasDown) =>
     \A n \in 1..N : (Logged("d", n) /\ c.dec[n]["d"] = "J") =>
        /\ \A x \in Desc(c.size, n) : ~Logged("d", x) /\ ~Logged("u", x)
-       /\ ~Logged("u", n)
+       /\ (HasUp /\ c.dec[n]["u"] # "S" /\ \A i \in 1..Len(LogPN) : c.dec[LogPN[i][2]][LogPN[i][1]] # "S") => Logged("u", n)
+UpJumpOK ==
+  (Walks /\ HasUp) =>
+    \A p \in 1..N : \A n \in 1..N :
+       (CS.kids[p] # <<>> /\ n = CS.kids[p][Len(CS.kids[p])] /\ Logged("u", n) /\ c.dec[n]["u"] = "J") => ~Logged("u", p)
 \* after a Stop nothing is called any more
 StopOK ==
   c.method # "exists" =>
@@ -179,7 +201,7 @@ NestOK ==
         /\ LogPN[i][1] = "u" => j < i
 ExistsOK == c.method = "exists" => (R.tr <=> \E n \in 1..N : c.chg[n]["d"])
 
-SpecOK == OrderOK /\ OnceOK /\ JumpOK /\ StopOK /\ StopTnr /\ MarksOK /\ NestOK /\ ExistsOK
+SpecOK == OrderOK /\ OnceOK /\ JumpOK /\ UpJumpOK /\ StopOK /\ StopTnr /\ MarksOK /\ NestOK /\ ExistsOK
 
 Emit == PrintT(<<"CASE", ToJson([size |-> c.size, kids |-> CS.kids, method |-> c.method,
                                  dec |-> [n \in 1..N |-> <<c.dec[n]["d"], c.dec[n]["u"]>>],
